@@ -333,6 +333,8 @@ def prop_C01(ctx, tier):
               'inserts (key, value), what is stored is an entry freshly built from the value parameter, and an oversize value still drops the superseded entry (P3) - the store overwrites. W2: store statics are owned by the decorated function. Not decided: equality of values over histories.', ASSUME_COMMON)
     n = W.check_wrapper_dataflow(run, ctx)
     run.require('C01-W1', 'fixture wrappers', n, 300)
+    from . import planted as PL
+    PL.expect_fires(run, 'C01-W1', 'the lookup of a fixture wrapper is dropped', PL.plant_lookup_dropped(ctx), W.check_wrapper_dataflow)
     K.check_store_value_identity(run, ctx, 'C01-P2')
     K.check_oversize_drops_old_entry(run, ctx, 'C01-P3')
     n2, anchors = K.check_store_overwrites(run, ctx, 'C01-P2')
@@ -360,6 +362,8 @@ def prop_C02(ctx, tier):
     if tier == 'thorough':
         W.check_repo_wrappers(run, ctx, ('C02',))
     S.check_key_traits(run, ctx)
+    from . import planted as PL
+    PL.expect_fires(run, 'C02-T1', 'the default key rendered with a precision', PL.plant_lossy_key_template(ctx), S.check_key_traits)
     return run
 
 
@@ -372,6 +376,8 @@ def prop_C03(ctx, tier):
               'Not decided: the concurrent-miss clause.', ASSUME_COMMON)
     n, fams = W.check_wrapper_flow(run, ctx, rules=('C03',))
     run.require('C03-W1', 'scenario outcomes', n, 600)
+    from . import planted as PL
+    PL.expect_fires(run, 'C03-W1', 'the lookup of a fixture wrapper is dropped', PL.plant_lookup_dropped(ctx), lambda r, c: W.check_wrapper_flow(r, c, rules=('C03',)))
     if tier == 'thorough':
         nw = W.check_repo_wrappers(run, ctx, ('C03',))
         run.require('C03-W1', 'repository-own decorated functions', nw, 200)
@@ -391,6 +397,8 @@ def prop_C09(ctx, tier):
               'edge of is_ok() (async; scenario table with an is_ok oracle). S1: the four core insert_result* store only in the Ok arm and store Ok(payload.clone()).', ASSUME_COMMON)
     n, fams = W.check_wrapper_flow(run, ctx, rules=('C09',))
     run.require('C09-W1', 'Result-family fixtures', fams.get('R', 0), 30)
+    from . import planted as PL
+    PL.expect_fires(run, 'C09-W1', 'a sync Result fixture stores through insert', PL.plant_result_stored_unconditionally(ctx), lambda r, c: W.check_wrapper_flow(r, c, rules=('C09',)))
     W.check_async_effect_order(run, ctx, 'C09-W2')
     S.check_result_store(run, ctx)
     return run
@@ -403,6 +411,8 @@ def prop_C10(ctx, tier):
               'exactly when it returns true; for sync Result functions the guarded store is the Ok-only one. Scenario table over found x keep (x stale).', ASSUME_COMMON)
     n, fams = W.check_wrapper_flow(run, ctx, rules=('C10',))
     run.require('C10-W1', 'cache_if fixtures', fams.get('P', 0), 40)
+    from . import planted as PL
+    PL.expect_fires(run, 'C10-W1', 'the cache_if predicate of a fixture is not consulted', PL.plant_predicate_not_consulted(ctx, 'cache_if'), lambda r, c: W.check_wrapper_flow(r, c, rules=('C10',)))
     if tier == 'thorough':
         W.check_repo_wrappers(run, ctx, ('C10',))
     W.check_wrapper_dataflow(run, ctx, 'C10-W1')
@@ -418,6 +428,8 @@ def prop_C11(ctx, tier):
               'when it says true the body runs and the result is stored. P1: the store overwrites the existing key in all three flavours (every store path inserts).', ASSUME_COMMON)
     n, fams = W.check_wrapper_flow(run, ctx, rules=('C11',))
     run.require('C11-W1', 'invalidate_on fixtures', fams.get('I', 0), 20)
+    from . import planted as PL
+    PL.expect_fires(run, 'C11-W1', 'the invalidate_on check of a fixture is not consulted', PL.plant_predicate_not_consulted(ctx, 'invalidate_on'), lambda r, c: W.check_wrapper_flow(r, c, rules=('C11',)))
     if tier == 'thorough':
         W.check_repo_wrappers(run, ctx, ('C11',))
     W.check_wrapper_dataflow(run, ctx, 'C11-W1')
@@ -437,6 +449,8 @@ def prop_C12(ctx, tier):
               'clear callback under the name attribute or the function name inside a Once that dominates the lookup. W2: the clear callback empties store and queue of its own function only.',
               ASSUME_COMMON)
     S.check_registry_tables(run, ctx)
+    from . import planted as PL
+    PL.expect_fires(run, 'C12-S1', 'invalidate_by_event reads the tag table', PL.plant_event_lookup_reads_tag_table(ctx), S.check_registry_tables)
     S.check_registry_in_place(run, ctx, 'C12-S3', ('cachelito_core::invalidation::InvalidationRegistry::',), 15)
     n = W.check_registration(run, ctx, rules=('C12',))
     run.require('C12-W1', 'global/async fixtures', n, 200)
@@ -456,6 +470,8 @@ def prop_C13(ctx, tier):
     S.check_registry_routing(run, ctx)
     S.check_order_preserving(run, ctx, 'C13-W3')
     n = W.check_callbacks(run, ctx, rules=('C13',))
+    from . import planted as PL
+    PL.expect_fires(run, 'C13-W1', 'a conditional callback keeps the queue slot of a removed key', PL.plant_check_callback_keeps_queue_slot(ctx), lambda r, c: W.check_callbacks(r, c, rules=('C13',)))
     run.require('C13-W1', 'registered callbacks', n, 300)
     return run
 
@@ -469,6 +485,8 @@ def prop_C14(ctx, tier):
               'async stores are process statics. Isolation is then a property of LocalKey, sharing a property of static.', ASSUME_COMMON)
     S.check_scope_types(run, ctx)
     from . import gen_witness
+    from . import planted as PL
+    PL.expect_fires(run, 'C14-T1', 'ThreadLocalCache.cache on a process-wide static', PL.plant_thread_scope_on_shared_storage(ctx), S.check_scope_types)
     gen_witness.judge(run, ctx, 'C14-T1')
     n = W.check_wrapper_config(run, ctx, rules=('C14',))
     run.require('C14-W1', 'fixture wrappers', n, 300)
@@ -488,6 +506,8 @@ def prop_C19(ctx, tier):
     n = W.check_wrapper_config(run, ctx, rules=('C19', 'C14'))
     run.require('C19-W1', 'fixture wrappers', n, 300)
     W.check_wrapper_flow(run, ctx, rules=('C05',))
+    from . import planted as PL
+    PL.expect_fires(run, 'C05-W1', 'a max_memory fixture stores through the plain insert', PL.plant_memory_store_not_selected(ctx), lambda r, c: W.check_wrapper_flow(r, c, rules=('C05',)))
     W.check_key_builder(run, ctx)
     W.check_registration(run, ctx, rules=('C12', 'C15'))
     n2 = gen_witness.judge(run, ctx, 'C19-T1')
